@@ -10,13 +10,21 @@ pub const JUNK: &[&str] = &[
     ":", "`", "$", "\u{e9}", "\u{65e5}", "\u{FEFF}", "\u{1F600}", "\u{200D}", "1.", "--1", "/*/", "\"a\nb\"",
 ];
 
+pub const LONG_TOKENS: &[&str] = &[
+    "\"a rather long quoted string literal which goes on and on, well past eighty characters, to the very end\"",
+    "aVeryLongIdentifierThatKeepsGoingAndGoingWellBeyondSixtyCharactersUntilItFinallyStops_0123456789",
+    "123456789012345678901234567890123456789012345678901234567890123456789012345678901234567890",
+    "@AnAnnotationWithAnExceptionallyLongNameThatNoOneWouldEverWriteButTheLexerMustAccept",
+];
+
 pub const EXTRA_WORDS: &[&str] = &[
     "interfaces", "in", "int", "inout2", "1f", ".5", "0", "007", "99999999999", "-", "-5", "x", "Foo", "a.b", "true", "\"s\"",
     "@A", "List", "Map", "String", "void", "oneway", "const", "parcelable", "enum", "interface", "import", "package",
 ];
 
 pub fn vocab_token(s: &mut Src) -> String {
-    match s.weighted(&[10, 4, 3, 3, 3]) {
+    match s.weighted(&[10, 4, 3, 3, 3, 1]) {
+        5 => (*s.pick(LONG_TOKENS)).to_owned(),
         0 => s.pick(&ALL_KINDS).repr().to_owned(),
         1 => (*s.pick(EXTRA_WORDS)).to_owned(),
         2 => s.pick(KEYWORDS).0.to_owned(),
@@ -27,7 +35,8 @@ pub fn vocab_token(s: &mut Src) -> String {
 
 /// Token drawn from the grammar's vocabulary only (always lexable)
 pub fn clean_vocab_token(s: &mut Src) -> String {
-    match s.weighted(&[10, 4, 3, 3]) {
+    match s.weighted(&[10, 4, 3, 3, 1]) {
+        4 => (*s.pick(LONG_TOKENS)).to_owned(),
         0 => s.pick(&ALL_KINDS).repr().to_owned(),
         1 => (*s.pick(EXTRA_WORDS)).to_owned(),
         2 => s.pick(KEYWORDS).0.to_owned(),
